@@ -41,7 +41,7 @@ def parseArguments (name : CommandName) (it : Arguments) : ParseOutcome :=
     | .err => .err
     | .panic s => .panic s
   | .print =>
-    match it.nextLocation with
+    match it.nextLocationOrDefault with
     | .ok location it' => finish (.print location) it'
     | .err => .err
     | .panic s => .panic s
